@@ -5,6 +5,7 @@ import ast
 
 from ..cfg import CFG, always_raises
 from ..core import AnalysisError, calls_in, call_name, dotted, unparse, walk_no_nested
+from ..core import const_str as const_str_
 from ..match import const_int, inline, kwarg, single_assignments, unpack_call
 from ..report import Ctx
 from ..terms import NODES, ZERO, node_class_terms
@@ -222,6 +223,16 @@ def r2_fields(ctx: Ctx) -> None:
                 raise AnalysisError("IncludeIpsNode.__init__: int.from_bytes fields with explicit length checks are not modelled")
             ctx.fail(f"IncludeIpsNode.__init__:{unparse(c)[:50]}", "a field decoded with int.from_bytes accepts a short read (nothing left decodes as 0): a truncated record is "
                      "taken as a valid one instead of being rejected, and at end of file the loop may never see the EOF marker")
+    # the patch named by the directive is opened for binary reading
+    opens = [c for c in calls_in(fn.node) if call_name(c) == "open"]
+    if len(opens) != 1:
+        raise AnalysisError(f"IncludeIpsNode.__init__: {len(opens)} open() calls")
+    from ..match import canon as _canon13
+
+    path_ok = opens[0].args and _canon13(fn.node, opens[0].args[0]) in (fn.params()[1], f"self.{'ips_file_path'}") and \
+        (_canon13(fn.node, opens[0].args[0]) == fn.params()[1] or any(isinstance(a, ast.Assign) and unparse(a.targets[0]) == "self.ips_file_path" and unparse(a.value) == fn.params()[1] for a in walk_no_nested(fn.node)))
+    mode = const_str_(opens[0].args[1]) if len(opens[0].args) > 1 else (const_str_(kwarg(opens[0], "mode")) if kwarg(opens[0], "mode") is not None else None)
+    ctx.check(bool(path_ok) and mode == "rb", "IncludeIpsNode.__init__:open", f"opens the file named by the directive in binary mode; found `{unparse(opens[0])[:50]}`")
     # magic
     magic = [s for s in walk_no_nested(fn.node) if isinstance(s, ast.If) and "b'PATCH'" in unparse(s.test)]
     ok = len(magic) == 1 and always_raises(magic[0].body) and unparse(magic[0].test).endswith(".read(5) != b'PATCH'")
